@@ -108,3 +108,19 @@ def c04(ctx):
              "sentinel object; TLC demands that exactly the current PINs authenticate and the object is intact."))
     ctx.assumptions += ["'iff' over all byte strings is sampled through the named relations, not enumerated",
                         "a wrong PIN is accepted by the blob check with probability about 2^-24 by construction"]
+    # "C_SetPIN only with the correct old PIN" when two threads change the PIN at once: of two C_SetPIN calls that name the
+    # same old PIN only one can find it current (ConcTok: the calls take effect one at a time, in some order)
+    if not ctx.violations:
+        import random
+        from checks import conc
+        tot = conc.new_tot()
+        tcs = dict(Threads=conc.THREADS, PinSyms='{"P0", "P1", "P2", "PX"}', InitPin='"P0"', Dev="{}")
+        for combo in ([("Lp,Lq", 2, 2500, False, True)] if quick else
+                      [("Lp,Lq", 2, 20000, False, True), ("Lr,Lx", 2, 20000, False, True), ("Lp,Lq", 1, 5000, True, True)]):
+            if not ctx.violations:
+                conc.run_combo(ctx, lib, combo, None, tcs, random.Random(ctx.seed), tot, tagp="c04-")
+        ctx.coverage["concurrent_setpin"] = dict(
+            schedules=tot["schedules"], executions=tot["executions"], accepted=tot["accepted"], calls=tot["calls"],
+            rule="two threads, each with its own session, change the user PIN at once (scheduler at the mutex callbacks, all "
+                 "two-preemption schedules); ConcTok (linearizability) decides which results are possible")
+        ctx.coverage["traces_validated_against_impl"] += tot["accepted"]
